@@ -25,7 +25,7 @@ from .common import Check, MachineryError, SPECS, run_tlc, scratch
 SITE = common.VERIF / 'harness' / 'c10_site'       # sitecustomize that neutralises time.sleep (download back-off)
 
 SC_FIELDS = ('mode', 'hash', 'url', 'fb', 'cache', 'files', 'arch', 'patch', 'phash', 'purl', 'pcache', 'pfiles',
-             'parch', 'pdir', 'diff', 'cmd', 'kind', 'vcs', 'rev')
+             'parch', 'pdir', 'diff', 'cmd', 'kind', 'vcs', 'rev', 'dser')
 
 WF_CFG = '''SPECIFICATION Spec
 CONSTANTS Universe = "%s"
@@ -37,6 +37,7 @@ INVARIANT ClientRunsWhenAllowed
 INVARIANT FailedPatchLeavesNoDir
 INVARIANT SecondRunNeverAcceptsHalfPrepared
 INVARIANT SecondRunSameVerdict
+INVARIANT AnyDiffOfSeriesFails
 INVARIANT MachineEqualsFunction
 CHECK_DEADLOCK FALSE
 POSTCONDITION EmitScenarios
@@ -47,6 +48,16 @@ SRC_FN = 'w-1.0.tar.gz'
 PATCH_FN = 'w-1.0-patch.tar.gz'
 GOOD_DIFF = '--- a/data.txt\n+++ b/data.txt\n@@ -1 +1 @@\n-orig\n+patched\n'
 BAD_DIFF = '--- a/data.txt\n+++ b/data.txt\n@@ -1 +1 @@\n-something that is not there\n+patched\n'
+# a series of diff files: the k-th file of `diff_files` edits a file of its own
+DATA_FILES = ('data.txt', 'data2.txt', 'data3.txt')
+DIFF_FILES = ('w-diffs/fix.patch', 'w-diffs/fix2.patch', 'w-diffs/fix3.patch')
+
+
+def series(sc: T.Dict[str, T.Any]) -> T.List[str]:
+    """WrapFetch!Series: the states of the listed diff files in the order they are applied."""
+    if sc['diff'] == 'series':
+        return list(sc.get('dser') or [])
+    return [] if sc['diff'] == 'none' else [sc['diff']]
 
 
 def _tar(members: T.List[T.Tuple[str, bytes]]) -> bytes:
@@ -71,8 +82,10 @@ class Archives:
         self.ptail = rnd.randbytes(120_000)
         build = b"project('w', version: '1.0')\nmessage('C10 wrap subproject configured')\n"
         self.src_ok = _tar([(f'{DIRNAME}/meson.build', build), (f'{DIRNAME}/data.txt', b'orig\n'),
+                            (f'{DIRNAME}/data2.txt', b'orig\n'), (f'{DIRNAME}/data3.txt', b'orig\n'),
                             (f'{DIRNAME}/SRC_MARK', b'src\n'), (f'{DIRNAME}/tail.bin', self.tail)])
         self.src_evil = _tar([(f'{DIRNAME}/meson.build', build), (f'{DIRNAME}/data.txt', b'orig\n'),
+                              (f'{DIRNAME}/data2.txt', b'orig\n'), (f'{DIRNAME}/data3.txt', b'orig\n'),
                               (f'{DIRNAME}/EVIL_MARK', b'evil\n'), (f'{DIRNAME}/tail.bin', self.evil_tail)])
         self.patch_ok = _tar([(f'{DIRNAME}/PATCH_MARK', b'patch\n'), (f'{DIRNAME}/overlay.txt', b'overlay\n'),
                               (f'{DIRNAME}/ptail.bin', self.ptail)])
@@ -135,7 +148,8 @@ def materialise(root: Path, sc: T.Dict[str, T.Any], ar: Archives) -> None:
     tpl = root / 'vcs-template'
     tpl.mkdir()
     (tpl / 'meson.build').write_text("project('w', version: '1.0')\nmessage('C10 wrap subproject configured')\n")
-    (tpl / 'data.txt').write_bytes(b'orig\n')
+    for fn in DATA_FILES:
+        (tpl / fn).write_bytes(b'orig\n')
     (tpl / 'SRC_MARK').write_bytes(b'src\n')
     (tpl / 'tail.bin').write_bytes(ar.tail)
 
@@ -181,12 +195,14 @@ def materialise(root: Path, sc: T.Dict[str, T.Any], ar: Archives) -> None:
             _put(sp / 'packagefiles' / 'w-overlay' / 'PATCH_MARK', b'patch\n')
             _put(sp / 'packagefiles' / 'w-overlay' / 'overlay.txt', b'overlay\n')
     # diff
-    if sc['diff'] != 'none':
-        wrap.append('diff_files = w-diffs/fix.patch')
-        if sc['diff'] == 'good':
-            _put(sp / 'packagefiles' / 'w-diffs' / 'fix.patch', GOOD_DIFF.encode())
-        elif sc['diff'] == 'bad':
-            _put(sp / 'packagefiles' / 'w-diffs' / 'fix.patch', BAD_DIFF.encode())
+    ser = series(sc)
+    if ser:
+        wrap.append('diff_files = ' + ', '.join(DIFF_FILES[:len(ser)]))
+        for state, dfn, data in zip(ser, DIFF_FILES, DATA_FILES):
+            if state == 'good':
+                _put(sp / 'packagefiles' / dfn, GOOD_DIFF.replace('data.txt', data).encode())
+            elif state == 'bad':
+                _put(sp / 'packagefiles' / dfn, BAD_DIFF.replace('data.txt', data).encode())
     (sp / 'w.wrap').write_text('\n'.join(wrap) + '\n')
 
 
@@ -220,8 +236,13 @@ def project_fs(root: Path, sc: T.Dict[str, T.Any], ar: Archives) -> T.Dict[str, 
                 marks.add('patch')
         if (d / 'EVILPATCH_MARK').is_file():
             marks.add('evilpatch')
-        if _read(d / 'data.txt') == b'patched\n':
+        # the diff files of the series that have been applied: all of them / some of them
+        ser = series(sc)
+        applied = [fn for fn in DATA_FILES if _read(d / fn) == b'patched\n']
+        if applied and (not ser or applied == list(DATA_FILES[:len(ser)])):
             marks.add('diff')
+        elif applied:
+            marks.add('pdiff')
 
     def cache_state(what: str, fn: str) -> str:
         data = _read(sp / 'packagecache' / fn)
@@ -323,14 +344,18 @@ def sc_key(sc: T.Dict[str, T.Any]) -> str:
         pt = f"dir({sc['pdir']})"
     else:
         pt = 'none'
-    return f"src={src},arch={sc['arch']};patch={pt};diff={sc['diff']};cmd={sc['cmd']}"
+    return f"src={src},arch={sc['arch']};patch={pt};diff={diff_key(sc)};cmd={sc['cmd']}"
+
+
+def diff_key(sc: T.Dict[str, T.Any]) -> str:
+    return 'series[' + ','.join(sc.get('dser') or []) + ']' if sc['diff'] == 'series' else sc['diff']
 
 
 def signature(v: T.Dict[str, T.Any], sc: T.Dict[str, T.Any]) -> str:
     """Half-prepared directories are keyed by their cause (the stage that failed in run 1), everything else by scenario."""
     if v['clause'] in ('SecondRunNeverAcceptsHalfPrepared', 'AcceptsHalfPrepared', 'FailedPatchLeavesNoDir', 'ExitStatus'):
         shape = {'unpack': f",arch={sc['arch']}", 'patch': f",patch={sc['patch']},parch={sc['parch']}",
-                 'diff': f",diff={sc['diff']}"}.get(v.get('stage', ''), '')
+                 'diff': f",diff={diff_key(sc)}"}.get(v.get('stage', ''), '')
         return f"{v['clause']}@stage={v.get('stage')}{shape}"
     return f"{v['clause']}@{sc_key(sc)}"
 
@@ -339,7 +364,7 @@ def judge(chk: Check, cases: T.List[T.Dict[str, T.Any]], label: str) -> None:
     by_id = {c['id']: c for c in cases}
     with scratch('c10t-') as d:
         tf = d / 'cases.json'
-        tf.write_text(json.dumps([{'id': c['id'], 'sc': dict({'kind': 'file', 'vcs': 'ok', 'rev': 'head'}, **c['sc']),
+        tf.write_text(json.dumps([{'id': c['id'], 'sc': dict({'kind': 'file', 'vcs': 'ok', 'rev': 'head', 'dser': []}, **c['sc']),
                                    'obs': c['obs']} for c in cases]))
         env = {'TRACE_FILE': str(tf)}
         res = run_tlc(SPECS / 'deps', 'TraceWrapFetch', env=env, timeout=1800)
@@ -370,6 +395,8 @@ def part2(chk: Check) -> None:
     chk.add_tlc(f"WrapFetch_MC[{'families' if quick else 'all'}]", res)
     scenarios = json.loads(res.collected['wrap_scenarios.json'])
     scenarios = [{k: s[k] for k in SC_FIELDS} for s in scenarios]
+    for s in scenarios:
+        s['dser'] = list(s['dser'])
     scenarios.sort(key=sc_key)
     chk.extra['wrap_scenarios_in_families'] = len(scenarios)
     rnd = random.Random(f'c10-wrap-{chk.seed}')
@@ -399,6 +426,9 @@ def part2(chk: Check) -> None:
         'wrap part: [wrap-file] and VCS wraps (no wrapdb, no MESON_PACKAGE_CACHE_DIR, no lead_directory_missing); '
         'URLs are file:// URLs; "corrupt" is a different valid archive, unpack faults are a non-archive and a truncated archive '
         'whose hash is the recorded one; download back-off sleeps are neutralised by a sitecustomize on PYTHONPATH',
+        'wrap part: series of diff files have two or three members, the k-th edits a file of its own (an applied member '
+        'stays visible whatever the others do); members are applied by the real `patch` program (git apply only if patch '
+        'is absent)',
         'wrap part: a corrupt file found in the package cache makes the run fail (it is neither used nor replaced); downloads '
         'that verify are stored in the package cache; stray temporary files in the package cache are not compared',
     ]
@@ -416,7 +446,10 @@ def random_scenarios(rnd: random.Random, n: int, exclude: T.Set[str]) -> T.List[
                                  'pcache': 'absent', 'pfiles': 'absent', 'parch': 'ok', 'pdir': 'absent',
                                  'diff': rnd.choice(['none', 'none', 'good', 'bad', 'missing']),
                                  'cmd': rnd.choice(['download', 'setup', 'setup_nodl']),
-                                 'kind': rnd.choice(['file', 'file', 'file', 'git', 'hg', 'svn']), 'vcs': 'ok', 'rev': 'head'}
+                                 'kind': rnd.choice(['file', 'file', 'file', 'git', 'hg', 'svn']), 'vcs': 'ok', 'rev': 'head',
+                                 'dser': []}
+        if s['diff'] != 'none' and rnd.random() < 0.5:
+            s.update({'diff': 'series', 'dser': [rnd.choice(['good', 'good', 'bad', 'missing']) for _ in range(rnd.choice([2, 3]))]})
         if s['kind'] != 'file':
             s.update({'mode': 'files', 'hash': True, 'arch': 'ok', 'vcs': rnd.choice(['ok', 'ok', 'fail']),
                       'rev': rnd.choice(['head', 'pinned'])})
